@@ -1,0 +1,24 @@
+//go:build verif
+
+// Contracts for the gocv verifier (comment-only file; see /verif/DESIGN.md §4).
+package hosts
+
+//@ spec func hReplyTo(q *dns.Msg, r *dns.Msg) bool = r != nil && r != q && r.Id == q.Id && r.Response && len(r.Question) == 1 && r.Question[0] == q.Question[0]
+
+//@ func (h *Hosts) Lookup
+//@   nobody
+//@   log hostsLookup
+
+// LookupMsg (C03): an answer is produced only for a single-question IN A / AAAA query whose name
+// has addresses; it is built from the query with SetReply (ID and question of the query) and
+// carries no additional records.
+//@ func (h *Hosts) LookupMsg [C03]
+//@   log hostsLookupMsg
+//@   requires h != nil && m != nil
+//@   ensures result != nil ==> len(m.Question) == 1 && fresh(result) && hReplyTo(m, result) && len(result.Extra) == 0 && result.Rcode == 0
+//@   ensures result != nil ==> m.Question[0].Qclass == 1 && (m.Question[0].Qtype == 1 || m.Question[0].Qtype == 28)
+//@   ensures result != nil ==> calls(hostsLookup) == 1 && arg(hostsLookup, 0, 1) == m.Question[0].Name && len(ret(hostsLookup, 0, 0)) + len(ret(hostsLookup, 0, 1)) > 0
+//@   loop 0:
+//@     invariant r != nil && fresh(r) && hReplyTo(m, r) && len(r.Extra) == 0 && r.Rcode == 0 && 0 <= it0
+//@   loop 1:
+//@     invariant r != nil && fresh(r) && hReplyTo(m, r) && len(r.Extra) == 0 && r.Rcode == 0 && 0 <= it1
